@@ -144,7 +144,7 @@ def materialise(scn, d, scheme='structural', name_tables=False):
     ncell = {nm.node(leaf, int(k)): v for k, v in scn.get('ncell', {}).items()}
     write_stats(d / 'stats.h5', tree, means, ref_genes, n_cells=ncell)
     cfg = scn['cfg']
-    Q = np.array(scn['Q'], dtype=float).reshape((len(scn['cells']), len(scn['qgenes'])))
+    Q = np.array(scn.get('Qf', scn['Q']), dtype=float).reshape((len(scn['cells']), len(scn['qgenes'])))
     write_h5ad(d / 'q.h5ad', Q, [nm.cell(c) for c in scn['cells']],
                [gene_name(g, scheme) for g in scn['qgenes']], cfg.get('enc', 'dense'))
     mk = {}
